@@ -330,7 +330,12 @@ def shard_async_native(spec: Dict[str, Any], journal: Any) -> Dict[str, Any]:
                                'replay': {'kind': 'async-native', 'case': case, 'config': config, 'delay': delay}})
 
         if stats is None:
-            bad('async/interrupt-escaped-run', 'KeyboardInterrupt propagated out of fjm_run.run instead of a termination')
+            if device.memory is None:
+                # the signal landed while run() was still loading the file (before its try block and before the engine
+                # attached the memory): the run had not started - not a statement about stopping a run
+                counters['interrupt_before_run_loop'] = counters.get('interrupt_before_run_loop', 0) + 1
+            else:
+                bad('async/interrupt-escaped-run', 'KeyboardInterrupt propagated out of fjm_run.run after the run had started')
             continue
         if str(stats.termination_cause) != 'keyboard-interrupt':
             bad('async/classification', f'cause {stats.termination_cause}')
